@@ -14,18 +14,21 @@ package skiplist
 //@ ghost field Node.del [int]bool
 
 //@ func (*Node).getNext
+//@ step-op
 //@ trusted L0 abstraction of the packed next word (unsafe pointer arithmetic, unaligned atomic load)
 //@ pure-call
 //@ requires n != nil
 //@ ensures result0 == n.nx[level] && (result1 <==> n.del[level])
 
 //@ func (*Node).setNext
+//@ step-op
 //@ trusted L0 abstraction of the packed next word
 //@ requires n != nil
 //@ modifies n.nx[level], n.del[level]
 //@ ensures n.nx[level] == ptr && (n.del[level] <==> deleted)
 
 //@ func (*Node).dcasNext
+//@ step-op
 //@ trusted L0 abstraction of the packed next word (single CAS on pointer+flag)
 //@ requires n != nil
 //@ modifies n.nx[level], n.del[level]
@@ -576,3 +579,64 @@ package skiplist
 //@ ensures[all-levels-linked] forall l int {result.head.nx[l]} :: 0 <= l && l <= 32 ==> result.head.nx[l] == result.tail && !result.head.del[l]
 //@ ensures[empty-chain] wfChain(result)
 //@ nopanic
+
+// ---------------------------------------------------------------------------
+// C13 (partial): every CAS on a next word performs a legal transition, under arbitrary interference.
+// Stable knowledge: a marked word never changes again (g-marked-frozen); the next words of a node being inserted
+// are private to the inserter at the levels it has not linked yet (mine-private; n.cur = level being linked).
+// ---------------------------------------------------------------------------
+
+//@ ghost field Node.mine bool
+//@ ghost field Node.cur int
+//@ shared heap(Node.nx), heap(Node.del), heap(Skiplist.level)
+//@ rely g-marked-frozen: forall n *Node, l int {n.nx[l]} :: old(n.del[l]) ==> n.del[l] && n.nx[l] == old(n.nx[l])
+//@ rely mine-private: forall n *Node, l int {n.nx[l]} :: n.mine && l >= n.cur ==> n.nx[l] == old(n.nx[l])
+//@ inv level-range: forall s *Skiplist {s.level} :: 0 <= s.level && s.level <= 32 || !s.islist
+//@ rely g-level-grows: forall s *Skiplist {s.level} :: s.level >= old(s.level)
+//@ ghost field Skiplist.islist bool
+
+//@ callback-type "func() float32"(fn ref) r float32
+//@ pure-call
+
+//@ func (*Skiplist).NewLevel @step
+//@ props C13 C14
+//@ mode step
+//@ requires s != nil && s.islist
+//@ loop 1 invariant nextLevel >= 0 && s.islist
+//@ ensures[range] 0 <= result && result <= 32
+//@ nopanic
+
+//@ func (*Skiplist).helpDelete @step
+//@ props C13 C14
+//@ mode step
+//@ requires s != nil && prev != nil && curr != nil && sts != nil && level >= 0 && curr.level <= 32
+//@ requires[marked-successor] curr.del[level] && curr.nx[level] == next
+//@ at-call (*skiplist.Node).dcasNext assert[g-unlink] arg0 == prev && arg2 == curr && arg3 == next && !arg4 && !arg5 && curr.del[arg1] && curr.nx[arg1] == next
+//@ call (*skiplist.Skiplist).Size havoc none
+
+//@ func (*Skiplist).softDelete @step
+//@ props C13
+//@ mode step
+//@ requires s != nil && delNode != nil && sts != nil
+//@ loop 1 invariant delNode != nil && sts != nil
+//@ loop 2 invariant delNode != nil && sts != nil
+//@ at-call (*skiplist.Node).dcasNext assert[g-mark] arg0 == delNode && !arg4 && arg5 && arg3 == arg2
+
+//@ func (*Skiplist).Insert4 @step
+//@ props C13 C14
+//@ mode step
+//@ requires s != nil && x != nil && buf != nil && sts != nil && x.mine && x.cur == 0 && 0 <= itemLevel && itemLevel <= 32 && len(buf.preds) == 33 && len(buf.succs) == 33
+//@ requires[buf-private] ptr(buf.preds) + 8 * 33 <= brk() && ptr(buf.succs) + 8 * 33 <= brk()
+//@ requires[fresh-node] forall l int {x.del[l]} :: !x.del[l]
+//@ call (*skiplist.Skiplist).findPath havoc elems(buf.preds), elems(buf.succs), buf.pos, heap(Stats.readConflicts), heap(Stats.softDeletes), heap(Stats.usedBytes), heap(Stats.levelNodesCount), heap(Node.$nx), heap(Node.$del)
+//@ call (*skiplist.Skiplist).Size havoc none
+//@ call field:skiplist.Skiplist.freeNode havoc none
+//@ at-call (*skiplist.Node).getNext x.cur := ite(arg0 == x, arg1, x.cur)
+//@ at-call (*skiplist.Node).dcasNext x.cur := ite(arg3 == x, arg1, x.cur)
+//@ at-call (*skiplist.Node).dcasNext assert[g-link] arg3 == x && arg0 != x ==> !arg4 && !arg5 && x.nx[arg1] == arg2
+//@ at-call (*skiplist.Node).dcasNext assert[g-own] arg0 == x ==> !arg4 && !arg5
+//@ loop 1 invariant[ctx] x != nil && x.mine && buf != nil && sts != nil && s != nil && 0 <= itemLevel && itemLevel <= 32 && len(buf.preds) == 33 && len(buf.succs) == 33 && x.cur == 0 && (forall l int {x.del[l]} :: !x.del[l])
+//@ loop 2 invariant[ctx] x != nil && x.mine && buf != nil && sts != nil && s != nil && 0 <= itemLevel && itemLevel <= 32 && len(buf.preds) == 33 && len(buf.succs) == 33 && 0 <= i && x.cur == 0
+//@ loop 2 invariant[prepared] (forall l int {x.nx[l]} :: 0 <= l && l < i ==> x.nx[l] == buf.succs[l]) && (forall l int {x.del[l]} :: !x.del[l])
+//@ loop 3 invariant[ctx] x != nil && x.mine && buf != nil && sts != nil && s != nil && 0 <= itemLevel && itemLevel <= 32 && len(buf.preds) == 33 && len(buf.succs) == 33 && 1 <= i
+//@ loop 4 invariant[ctx] x != nil && x.mine && buf != nil && sts != nil && s != nil && 0 <= itemLevel && itemLevel <= 32 && len(buf.preds) == 33 && len(buf.succs) == 33 && 1 <= i && i <= itemLevel
